@@ -75,8 +75,9 @@ def sample_density_matrix(
         _validate_density_matrix_qid_shape(density_matrix, qid_shape)
     meas_shape = _indices_shape(qid_shape, indices)
 
+    dtype = simulation_utils.digits_dtype(meas_shape, np.int8)
     if repetitions == 0 or len(indices) == 0:
-        return np.zeros(shape=(repetitions, len(indices)), dtype=np.int8)
+        return np.zeros(shape=(repetitions, len(indices)), dtype=dtype)
 
     prng = value.parse_random_state(seed)
 
@@ -90,7 +91,7 @@ def sample_density_matrix(
     # Convert to individual qudit measurements.
     return np.array(
         [value.big_endian_int_to_digits(result[i], base=meas_shape) for i in range(len(result))],
-        dtype=np.int8,
+        dtype=dtype,
     )
 
 
